@@ -30,11 +30,12 @@ def run_case(case):
     """case = {tid, k, vals:[abs]}; returns the trace record."""
     from monkeytype.typing import get_type, shrink_types  # the implementation under test
     k = case["k"]
+    k1 = case.get("k1", k)          # limit at tracing time (types are collected under k1, merged under k)
     reals = [absmodel.real_value(v) for v in case["vals"]]
-    rec = {"tid": case["tid"], "k": k, "vals": [absmodel.abs_value(x) for x in reals], "runs": []}
+    rec = {"tid": case["tid"], "k": k, "k1": k1, "vals": [absmodel.abs_value(x) for x in reals], "runs": []}
     for order in _orders(len(reals), case["tid"]):
         try:
-            tys = [get_type(reals[i], k) for i in order]
+            tys = [get_type(reals[i], k1) for i in order]
             ty = shrink_types(tys, k)
             rec["runs"].append({"ty": absmodel.abs_type(ty), "err": "NONE"})
         except Exception as e:  # the outcome, not a harness failure
@@ -62,12 +63,15 @@ def gen_cases(tier, seed, env_text):
     U = lambda name: universe.export("MTInferExport", name, DEPS, env_text)  # noqa: E731
     cases, plan = [], []
 
-    def add(label, multisets, ks):
+    def add(label, multisets, ks, k1=None):
         n0 = len(cases)
         for vals in multisets:
             for k in ks:
-                cases.append({"tid": len(cases) + 1, "k": k, "vals": list(vals), "src": label})
-        plan.append({"family": label, "cases": len(cases) - n0, "ks": list(ks)})
+                c = {"tid": len(cases) + 1, "k": k, "vals": list(vals), "src": label}
+                if k1 is not None:
+                    c["k1"] = k1
+                cases.append(c)
+        plan.append({"family": label, "cases": len(cases) - n0, "ks": list(ks), "k1": k1})
 
     full1, small1, wide, tiny2, recs = U("full1"), U("small1"), U("wide"), U("tiny2"), U("recs")
     rng = random.Random(seed)
@@ -78,6 +82,9 @@ def gen_cases(tier, seed, env_text):
     atoms3 = [v for v in recs if v["k"] in ("atom", "str")]
     add("pairs/recs x {int, None, str} (exhaustive)", ([v, a] for v in recs for a in atoms3 if v is not a), [2, 3])
     add("pairs/recs (sampled)", (rng.sample(recs, 2) for _ in range(4000 if tier == "quick" else 60000)), [2, 3])
+    # the limit is lowered between tracing and stub generation: types collected under k1 = 3, merged under k < 3
+    add("limit lowered after tracing (k1=3): singles wide+recs+tiny2", ([v] for v in wide + recs + tiny2), [0, 1, 2], k1=3)
+    add("limit lowered after tracing (k1=3): pairs recs (sampled)", (rng.sample(recs + wide[:12], 2) for _ in range(1500)), [0, 2], k1=3)
     if tier == "quick":
         pairs = list(itertools.combinations(small1, 2))
         add("pairs/small1 (exhaustive)", pairs, [0, 2])
@@ -145,6 +152,11 @@ def main(pid, tier, seed, replay=None):
         mc = None
     else:
         cases, plan = gen_cases(tier, seed, env_text)
+        if pid == "C06":
+            # C06 looks at the dict-heavy families (the others are C04/C05's); it adds the end-to-end stages below
+            keep = ("wide", "recs", "limit lowered", "tiny2", "random multisets")
+            cases = [c for c in cases if any(w in c["src"] for w in keep)]
+            plan = [p for p in plan if any(w in p["family"] for w in keep)]
         mc = mc_run(tier, env_text)
     records = run_cases(cases)
     env_text = envgen.mtenv_text()  # classes met while projecting
@@ -160,12 +172,26 @@ def main(pid, tier, seed, replay=None):
         for clause in v.get("viol", []):
             if clause not in mine:
                 continue
-            vio = {"clause": clause, "k": rec["k"],
+            vio = {"clause": clause, "k": rec["k"], "limit_lowered_after_tracing": rec["k1"] != rec["k"],
                    "value_kinds": sorted(set().union(*[kinds_in(x) for x in rec["vals"]])),
                    "n_values": len(rec["vals"]),
                    "errs": sorted({r["err"] for r in rec["runs"]} - {"NONE"})}
             c = case_by_tid[v["tid"]]
-            run.violation(vio, {"tid": c["tid"], "k": c["k"], "vals": c["vals"]})
+            if clause == "TDBound" and rec["k1"] != rec["k"]:
+                tys = [r["ty"] for r in rec["runs"] if r["err"] == "NONE"]
+                vio["oversized_typed_dict_at_top_level"] = any(
+                    t["k"] == "td" and (rec["k"] == 0 or len(t["u"]) > rec["k"]) for t in tys)
+                vio.pop("value_kinds"), vio.pop("n_values"), vio.pop("k")
+            run.violation(vio, {k2: c[k2] for k2 in ("tid", "k", "k1", "vals") if k2 in c})
+    e2e = None
+    if pid == "C06" and not replay:
+        # stages (ii) and (iii): the rows of a real store and the TypedDict classes of the real stub
+        from . import replay_pipeline
+        precs, pcases, pplan, _, pstates, ptrans, pwall = replay_pipeline.run_pipeline("C06", tier, seed, run)
+        e2e = {"plan": pplan, "runs": len(precs), "tlc_states": pstates,
+               "typed_dict_classes_checked": sum(len(r["tds"]) for r in precs), "stored_types_checked": sum(len(r["stored"]) for r in precs)}
+        states += pstates
+        trans += ptrans
     nt = {json.dumps([r["k"], sorted(absmodel.canon(x) for x in r["vals"])]) for r in records if nontrivial(r)}
     sample = records[len(records) // 2]
     cov = {
@@ -184,7 +210,8 @@ def main(pid, tier, seed, replay=None):
                                        "distinct_states": mc.distinct, "states_generated": mc.generated,
                                        "depth": mc.depth, "wall_s": round(mc.wall, 1)},
         "trace_validation": {"spec": "MTInferTrace", "tlc_states": states, "wall_s": round(wall, 1)},
-        "clauses_decided": sorted(mine),
+        "clauses_decided": sorted(mine) + (["StubTDBound", "StoredTDBound"] if e2e else []),
+        "end_to_end": e2e,
         "exhaustive": False,
     }
     return run.finish(cov)
